@@ -44,7 +44,16 @@ func c07Oracle(c *ParseCase) string {
 	st := S("C07")
 	ref := Ref(&RefInput{D: c.D, Args: c.Args, Handler: c.Handler})
 	if ref.Undetermined != "" {
-		st.Label("skip: " + ref.Undetermined)
+		st.Label("R undetermined: " + ref.Undetermined)
+		if c.D.Has(flags.IgnoreUnknown) {
+			// "passed through verbatim": whatever comes back must be argv tokens in order
+			rr := RunReal(c.D, c.Args, nil, nil)
+			if rr.Panic == "" && rr.SetupErr == nil && rr.Err == nil {
+				if ok, _ := isSubsequence(rr.Rest, c.Args); !ok {
+					return fmt.Sprintf("IgnoreUnknown: remaining arguments %q are not argv tokens in their original order (argv %q)", rr.Rest, c.Args)
+				}
+			}
+		}
 		return ""
 	}
 	rr := RunReal(c.D, c.Args, nil, &RealCfg{Handler: c.Handler, Warmup: c.Warmup, HasWarmup: c.HasWarmup})
